@@ -8,6 +8,8 @@ Model state: per ballot (position, value).  Checked on every snapshot / step:
  I1  for every candidate c: tally(c) == sum(value*multiplier of ballots standing with c), or c is
      elected-and-transferred with no ballots and tally == quota, or defeated-and-transferred with no ballots
      and tally == 0
+ I1b no ballot stands with a candidate whose ballots have been transferred (a logged transfer step after its 'unpend' / exclusion), nor, at
+     the start of a later round, with a candidate excluded in an earlier round -- whatever the ballot's value (zero-valued ballots included)
  I2  every ranking entry a ballot has passed over belongs to a candidate who is not continuing (hopeful);
      a ballot that moved in a step came from a candidate transferred in that step and now stands with a
      hopeful candidate (or is exhausted); ballots standing elsewhere are untouched
@@ -71,6 +73,9 @@ class C06(Check):
             mults = [int(t.unit_value(b.multiplier)) for b in E.ballots]
             nb = len(rankings)
             reweights = [0] * nb
+            awaiting = set()        # candidates whose transfer has been announced in this round (unpend / defeat / mpls elect)
+            transferred = set()     # candidates whose ballots have been moved on by a logged transfer step
+            names = common.names_of(t)
             zero_trunc = set()
             bad = False
             prev = None
@@ -88,12 +93,42 @@ class C06(Check):
                 for k, (ix, w) in enumerate(bl):
                     if w < 0 or w > scale:
                         viol('value-range', 'ballot %d has value %s outside [0,1]' % (k, w), s)
+                # which candidates have been transferred so far (the transfer of a round's exclusions / surpluses is logged in that round)
+                if s.tag == 'round':
+                    awaiting = set()
+                elif s.tag == 'unpend' or (s.tag == 'defeat' and 'remaining' not in s.msg) or (rule == 'mpls' and s.tag == 'elect' and s.msg.startswith('Elect: ')):
+                    cid = common.named(s.A, names)
+                    if cid is not None:
+                        awaiting.add(cid)
+                elif s.tag == 'transfer':
+                    # 'Transfer defeated: A, B' / 'Surplus transferred: X (amount)' / 'Transfer surplus: X (amount)' name whose ballots moved
+                    part = s.msg.split(': ', 1)[1] if ': ' in s.msg else ''
+                    if part.endswith(')') and ' (' in part:
+                        part = part[:part.rindex(' (')]
+                    byname = {v: k for k, v in names.items()}
+                    moved_now = {byname[x] for x in part.split(', ') if x in byname}
+                    if not moved_now:
+                        moved_now = set(awaiting)
+                    transferred |= (moved_now & awaiting)
+                    awaiting -= moved_now
                 # I1 tallies == standing ballots
                 stand = {}
+                nstand = {}
                 for k, (ix, w) in enumerate(bl):
                     if ix < len(rankings[k]):
                         c = rankings[k][ix]
                         stand[c] = stand.get(c, 0) + w * mults[k]
+                        nstand[c] = nstand.get(c, 0) + 1
+                for c in transferred:
+                    if nstand.get(c):
+                        viol('stands-with-transferred', '%d ballot line(s) still stand with candidate %s (%s) whose ballots were transferred' % (nstand[c], c, s.st[c]), s)
+                        break
+                if s.tag == 'round':
+                    # a candidate excluded in an earlier round has had its ballots moved on in that round
+                    for c, x in s.st.items():
+                        if x == 'defeated' and nstand.get(c):
+                            viol('stands-with-defeated', '%d ballot line(s) still stand with candidate %s, excluded in an earlier round' % (nstand[c], c), s)
+                            break
                     # I2a passed-over entries are not continuing
                     for pos in range(min(ix, len(rankings[k]))):
                         if s.st[rankings[k][pos]] == 'hopeful':
